@@ -31,3 +31,6 @@ l2_all!(t, t, V_LIST_BIN_1, V_BINARY2, 5, 7);
 l2_all!(t, t, V_DOUBLE, V_UUID, 17, 17);
 // the nested-struct sibling shape alone, compact, quick (smallest form of the field-id-stack property)
 
+crate::proof!{ #[kani::unwind(3)] fn c01_q_l2_boolfield_then_bool_true_compact() { l2::l2_boolfield_then_bool::<PCompact, true>() } }
+crate::proof!{ #[kani::unwind(3)] fn c01_q_l2_boolfield_then_bool_false_compact() { l2::l2_boolfield_then_bool::<PCompact, false>() } }
+crate::proof!{ #[kani::unwind(3)] fn c01_t_l2_boolfield_then_bool_true_bin() { l2::l2_boolfield_then_bool::<PBin, true>() } }
